@@ -110,6 +110,8 @@ def conf_text(moddir, svcs, timeout="1h", modules=("iauth_xquery",), rules=None,
         # marker table: iauth_xquery is not loaded; the core module (and iauth_class, if asked for) only
         svcs = []
         modules = tuple(m for m in modules if m != "iauth_xquery") or ("iauth",)
+        if "iauth_class" in modules:
+            raise ValueError("iauth_class depends on iauth_xquery: it cannot be loaded without it")
         noxq = True
     else:
         noxq = False
